@@ -88,8 +88,31 @@ func runC04(l *core.Ledger) {
 				}
 			}
 			okMut := f["mut"] == ssa.Value(sl.mut)
-			okCtx := f["Context"] != nil
-			l.Check(okOnce && okMut && okCtx, "C04-H2", key+"/ServerCtx-literal", sl.ctxLit.Pos(), "ServerCtx{stream ctx, fresh Once, &mut}", fmt.Sprintf("handler context: fresh sync.Once per start: %v (a shared Once makes every Release after the first a no-op: the connection stalls); carries this connection's mutex: %v; carries the stream context: %v", okOnce, okMut, okCtx))
+			// the handler's context must live as long as the stream: the stream's own
+			// context (possibly decorated with values), never one the loop cancels -
+			// a released handler still has to hand its reply to SendMessage, which
+			// selects on this context
+			var isStreamCtx func(v ssa.Value, depth int) bool
+			isStreamCtx = func(v ssa.Value, depth int) bool {
+				if v == nil || depth > 4 {
+					return false
+				}
+				return sx.All(sx.Origins(v), func(o sx.Origin) bool {
+					c, ok := o.V.(*ssa.Call)
+					if o.Kind != sx.KCall || !ok {
+						return false
+					}
+					if c.Call.IsInvoke() && c.Call.Method.Name() == "Context" {
+						return true
+					}
+					if calleeIs(&c.Call, "context.WithValue", "context.WithoutCancel") {
+						return isStreamCtx(c.Call.Args[0], depth+1)
+					}
+					return false
+				})
+			}
+			okCtx := isStreamCtx(f["Context"], 0)
+			l.Check(okOnce && okMut && okCtx, "C04-H2", key+"/ServerCtx-literal", sl.ctxLit.Pos(), "ServerCtx{stream ctx, fresh Once, &mut}", fmt.Sprintf("handler context: fresh sync.Once per start: %v (a shared Once makes every Release after the first a no-op: the connection stalls); carries this connection's mutex: %v; carries the stream's own context (not one that ends before the stream does: a released handler's reply would be dropped by SendMessage): %v", okOnce, okMut, okCtx))
 		} else {
 			l.Bad("C04-H2", key+"/ServerCtx-literal", sl.fn.Pos(), "no ServerCtx literal at the handler start")
 		}
